@@ -68,7 +68,7 @@ func init() {
 	checks["C03"] = histCheck("C03", []string{"C03.put_monotone", "C03.puts_monotone", "C03.put_present", "C03.name_is_hash", "C03.branch_target_present", "C10.add_invalid", "C19.get_returns_requested"}, histRule+"; hostile stream: ids of blobs/trees given to update-ref, names with '/', '..', resets to zero-id reflog entries",
 		func(ctx *Ctx) *HistCfg {
 			return &HistCfg{Prop: "C03", Cases: tierN(ctx, 150, 1500), MinSteps: 10, MaxSteps: 40,
-				W:       weights(Weights{"update-ref": 5, "branch": 4, "branch-rename": 3, "reset": 6, "junk": 6, "switch-c": 2}),
+				W:       weights(Weights{"update-ref": 5, "branch": 4, "branch-rename": 3, "reset": 6, "junk": 6, "switch-c": 2, "commit-inject": 4}),
 				Oracles: []HistOracle{orC03}, PreReset: true}
 		})
 	checks["C04"] = histCheck("C04", []string{"C04.update_membership", "C04.update_perm", "C04.update_same_noop", "C04.delete_exact", "C04.eraseIdx_canonical", "C04.sortEntries_sorted", "C06.getEntry_correct"}, histRule,
@@ -111,8 +111,18 @@ func init() {
 	checks["C13"] = histCheck("C13", []string{"C13.status_ok", "C13.modified_iff", "C13.same_bytes_not_modified", "C13.deleted_iff", "C13.untracked_iff", "C01.encode_injective", "C06.getEntry_correct", "C17.nothing_hidden_without_ignore"}, histRule,
 		func(ctx *Ctx) *HistCfg {
 			return &HistCfg{Prop: "C13", Cases: tierN(ctx, 200, 2000), MinSteps: 8, MaxSteps: 30,
-				W:       weights(Weights{"status": 18, "write": 18, "rewrite-same": 6, "touch": 4, "rmfile": 8, "rmdir": 4, "mkdir": 2, "ignore": 3, "commit": 8, "add": 12, "junk": 0}),
-				Oracles: []HistOracle{orC13}, CommitFirst: true}
+				W:       weights(Weights{"status": 18, "write": 18, "rewrite-same": 6, "touch": 4, "rmfile": 8, "rmdir": 4, "mkdir": 2, "ignore": 7, "commit": 8, "add": 12, "junk": 0}),
+				Oracles: []HistOracle{orC13}, CommitFirst: true,
+				// names with the extensions the generated `*.ext` entries use, so that ignored files really
+				// exist next to files that sort before and after them
+				Names: func(r *rng) []string {
+					pool := []string{"a.log", "m.log", "z.log", "b.tmp", "y.tmp", "k.c", "n.txt", "d", "d0", "sub", "lib", "x+y", "zz", "aa", "m", "d e", "ü"}
+					var out []string
+					for i := 0; i < 6+r.intn(5); i++ {
+						out = append(out, pool[r.intn(len(pool))])
+					}
+					return out
+				}}
 		})
 	checks["C14"] = histCheck("C14", []string{"C14.log_chain", "C14.log_nonpos"}, histRule,
 		func(ctx *Ctx) *HistCfg {
